@@ -840,7 +840,7 @@ class ComposerBinary(ComposerBase):
 
     def compose_timestamp(self, value, milliseconds=False, item_size=8):
         if value is None:
-            timestamp = 0xffffffffffffffff
+            timestamp = 2 ** (8 * item_size) - 1
         else:
             timestamp = int(time.mktime(value.timetuple())) - time.timezone
 
